@@ -383,6 +383,8 @@ type BlockSpec struct {
 	Dt     int      `json:"dt,omitempty"`
 	Bad    string   `json:"bad,omitempty"` // "", ts-old, ts-future, bits, reward+1, reward-1, merkle, dup-tx, second-coinbase, no-coinbase, no-tx, pow
 	Hold   bool     `json:"hold,omitempty"`
+	Pool    []int   `json:"pool,omitempty"`    // include these of the node's pooled transactions (selectors)
+	Variant bool    `json:"variant,omitempty"` // ... with a differently sized valid witness where one exists (multisig: M+1 signatures)
 }
 
 func medianTimePast(b *mBlock) uint32 {
@@ -430,8 +432,40 @@ func (s *sim) buildBlock(parent *mBlock, bs *BlockSpec) *mBlock {
 	var lastFee *big.Int
 	selfOK, why := true, ""
 	var labels []string
-	for _, spec := range bs.Txs {
-		info := s.makeTx(v, spec)
+	// a miner who heard the same traffic as the node includes transactions the
+	// node holds in its pool: the very same bytes, or (Variant) the same
+	// transaction with a differently sized but equally valid witness
+	var picked []*txInfo
+	if len(bs.Pool) > 0 {
+		pts := s.poolTxs()
+		used := map[common.Uint256]bool{}
+		for _, sel := range bs.Pool {
+			if len(pts) == 0 {
+				break
+			}
+			pi := pts[mod(sel, len(pts))]
+			if used[pi.tx.Hash()] {
+				continue
+			}
+			used[pi.tx.Hash()] = true
+			if bs.Variant {
+				if vtx := s.witnessVariant(pi); vtx != nil {
+					pi = &txInfo{tx: vtx, facts: pi.facts, outs: pi.outs, spec: pi.spec, nodeFee: pi.nodeFee}
+					s.c.Fault("block-carries-pooled-tx-with-other-witness-size")
+				}
+			}
+			s.c.Probe("block-carries-pooled-tx")
+			picked = append(picked, pi)
+		}
+	}
+	nPicked := len(picked)
+	for i := 0; i < nPicked+len(bs.Txs); i++ {
+		var info *txInfo
+		if i < nPicked {
+			info = picked[i]
+		} else {
+			info = s.makeTx(v, bs.Txs[i-nPicked])
+		}
 		if info == nil {
 			continue
 		}
